@@ -365,7 +365,7 @@ func (vm *Vm) runMove(ctx context.Context, b []byte) ([]byte, error) {
 		return b, err
 	}
 	logg.DebugCtxf(ctx, "loaded code", "sym", sym, "code", code)
-	b = append(b, code...)
+	b = append(b[:len(b):len(b)], code...)
 	vm.Reset()
 	return b, nil
 }
@@ -428,7 +428,7 @@ func (vm *Vm) runInCmp(ctx context.Context, b []byte) ([]byte, error) {
 		return b, err
 	}
 	logg.DebugCtxf(ctx, "loaded additional code", "next", sym, "code", code)
-	b = append(b, code...)
+	b = append(b[:len(b):len(b)], code...)
 	return b, err
 }
 
